@@ -1577,7 +1577,7 @@ fn write_span(
 
     let cur_text = &chunk.text[span.start..span.end];
 
-    xml.write_text(&cur_text.replace('&', "&amp;"));
+    xml.write_text(&cur_text.replace('&', "&amp;").replace('>', "&gt;"));
 
     // End for each tspan we needed to create for baseline_shift
     for _ in &span.baseline_shift {
